@@ -88,6 +88,8 @@ def classes():
         else:
             signals.append(_meth(notify))
     signals += [
+        # a signal that merely LOOKS like the change signal of the notify-less property `nonotify` (nothing says the setter emits it)
+        _meth("nonotifyChanged"),
         _meth("fired"),
         # poked(int a, QString b = QString()) : default-argument family
         _meth("poked", args=[("int", "a")]),
@@ -153,8 +155,9 @@ def classes():
             {"name": "Options", "alias": "Option", "isClass": False, "isFlag": True, "values": OPTIONS},
             {"name": "Level", "isClass": True, "isFlag": False, "values": ["Low", "Mid", "High"]},     # enum class: VfWidget.Level.Low
         ],
-        "properties": [_prop(*p) for p in VF_PROPS],
-        "signals": signals, "slots": slots, "methods": methods,
+        # (ilist is not part of VF_PROPS: no state is generated for it; it is there for the typing rules of non-string lists)
+        "properties": [_prop(*p) for p in VF_PROPS] + [_prop("ilist", "QList<int>", "ilist", "setIlist", "ilistChanged", False)],
+        "signals": signals + [_meth("ilistChanged")], "slots": slots + [_meth("setIlist", args=[("QList<int>", "v")])], "methods": methods,
     }
     sub = {
         "className": "VfSub", "qualifiedClassName": "VfSub", "object": True,
@@ -166,6 +169,8 @@ def classes():
     other = {
         "className": "VfOther", "qualifiedClassName": "VfOther", "object": True,
         "superClasses": [{"access": "public", "name": "QWidget"}],
+        # an enum with the same unqualified name as the one VfWidget::Options wraps: another type altogether
+        "enums": [{"name": "Option", "isClass": False, "isFlag": False, "values": ["Alt0", "Alt1"]}],
         "properties": [_prop("ival", "int", "ival", "setIval", "ivalChanged", False)],
         "signals": [_meth("ivalChanged")],
         "slots": [_meth("setIval", args=[("int", "v")])],
